@@ -20,7 +20,9 @@ pub const DEF: PropDef = PropDef {
         "a numeric filter applied to a non-numeric binding is left open by the statement: cases whose least model differs between the two readings (type error / read as 0) are counted and not judged",
         "ordering filters between two variables are not generated (FilterCondition documents only =/!= for variable operands)",
         "the returned vector is only required to contain derivable facts (first run) and to be empty (second run); set-equality with model minus input is counted, not judged",
-        "rules are added through Reasoner::add_rule (which fills rule_index); facts through add_abox_triple",
+        "rules are added through Reasoner::add_rule (which fills rule_index); facts through add_abox_triple; quick: rules before facts, thorough: both layouts",
+        "the store hands facts out in HashMap order (random per process): a wrong result that changes from run to run is still a failure (tag result_varies_between_runs), a replay executes the case 8 times",
+        "failure tags explained_by=<component>: the reference reproduces the observed wrong store exactly when that component of the program is ignored (negated atoms / filters / rules with >=3 premises / rules reachable only through a constant-predicate premise / second and later passes over the negated rules); explained_by=nothing otherwise",
     ],
     run,
     replay,
@@ -1022,7 +1024,7 @@ fn report(out: &mut ShardOut, rules: &[Rule], facts: &[Fact], facts_first: bool,
     }
 }
 
-fn problems_of(obs: &Result<Obs, String>, facts: &[Fact], exp: &Expect, sy: &Symbols) -> Vec<(&'static str, String, Vec<String>)> {
+fn problems_of(obs: &Result<Obs, String>, _facts: &[Fact], exp: &Expect, sy: &Symbols) -> Vec<(&'static str, String, Vec<String>)> {
     let mut v = Vec::new();
     let obs = match obs {
         Err(msg) => {
